@@ -14,7 +14,10 @@ RULE = (
     "time, job precedence, machine exclusivity, padded ops untouched) and makespan == -reward; (2) reference "
     "event-driven simulator re-derives every step's mask and the final start/finish/assignment (FJSP/JSSP) resp. "
     "schedule (FFSP) from the action list alone; SMTWTP: permutation of 1..n. Non-trivial = episode with >=1 wait or "
-    "forced time advance and (batches) differing op counts; distinct (case,row) hash."
+    "forced time advance and (batches) differing op counts; distinct (case,row) hash. Sub ffsp_multistart: the "
+    "documented machine-order augmentation of FFSP (reset -> batchify(td, k) -> env.pre_step, k <= M!, 2-3 machines per "
+    "stage): every replicated row is judged by the same validity predicate and by a reference sweep that visits the "
+    "machines of each stage in that start's permutation; non-trivial = row of a start >= 1."
 )
 ASSUMPTIONS = [
     "integer processing times >= 1 (0 encodes 'ineligible' in FJSP/JSSP)",
@@ -98,6 +101,94 @@ def execute(case, ctx):
     ctx.sample({"env": name, "cfg": cfg, "src": case["src"], "B": B, "actions_row0": A[0].tolist(), "reward_row0": float(rew[0])})
 
 
+def execute_ffsp_multistart(case, ctx):
+    """FFSP under the documented machine-order augmentation (get_num_starts = M!): the history of the real caller
+    (MultiStageFFSPPolicy.pre_forward) is reset -> batchify(td, k) -> env.pre_step(td) -> mask-confined steps; row
+    j*B + b sweeps the machines of every stage in the j-th lexicographic permutation."""
+    from math import factorial
+
+    from rl4co.utils.ops import batchify
+
+    from ..episode import run_episode
+    from ..models.ffsp_ref import FFSPOrderModel, start_order
+    cfg = case["cfg"]
+    spec = SPECS["ffsp"]
+    S, M, J = cfg["stages"], cfg["mas"], cfg["jobs"]
+    k = min(int(case["k"]), factorial(M))
+    env = ctx.guard(spec.env, cfg, what="build_env|ffsp")
+    inst = ctx.guard(spec.instance, case, what="instance|ffsp")
+    B = inst.batch_size[0]
+    insts = [py_instance("ffsp", inst[b]) for b in range(B)]
+    sl = f"multistart|k={'2' if k == 2 else '3+'}"
+    ctx.event(f"env:ffsp|{sl}|M={M}")
+
+    def prepare():
+        td = env.reset(inst.clone())
+        return env.pre_step(batchify(td, k))
+    td0 = ctx.guard(prepare, what="ffsp_multistart|reset_batchify_pre_step")
+    R = B * k
+    rows = case["rows"]
+    modes = [rows[r % len(rows)]["mode"] for r in range(R)]
+    streams = [rows[r % len(rows)]["stream"] for r in range(R)]
+    cap = max(spec.bound(cfg, insts[b]) for b in range(B)) + 3
+    ep = ctx.guard(run_episode, env, td0, modes, streams, cap, False, False, what="episode|ffsp|multistart")
+    if ep.dead_end is not None or ep.cap_hit or ep.T == 0:
+        ctx.violation(f"ffsp|{sl}|episode_aborted", f"dead end {ep.dead_end} / cap hit {ep.cap_hit} under the machine-order augmentation",
+                      {"instance": insts})
+        return
+    A = ep.actions_tensor()
+    rew = ctx.guard(env.get_reward, ep.td.clone(), A.clone(), what="get_reward|ffsp|multistart").reshape(-1).double()
+    for r in range(R):
+        b, j = r % B, r // B
+        acts = A[r].tolist()
+        fin = ep.finish_step(r)
+        det = {"row": r, "instance_row": b, "start": j, "machine_order": list(start_order(M, j)), "actions": acts,
+               "finish": fin, "instance": insts[b]}
+        model = FFSPOrderModel(insts[b], S, M, start_order(M, j))
+        for t in range(fin):
+            want, got = model.mask(), ep.masks[t][r].tolist()
+            if want != got:
+                ctx.violation(f"ffsp|{sl}|mask_vs_model", f"mask at step {t} differs from the reference sweep with start {j}'s machine order",
+                              {**det, "step": t, "env_mask": got, "model_mask": want})
+                break
+            model.step(acts[t])
+        else:
+            ctx.check(model.done, f"ffsp|{sl}|done_vs_model", "env reports done but the reference sweep is not", det)
+        final = {"schedule": ep.td["schedule"][r].tolist()}
+        v = judge_ffsp(insts[b], final, S, M)
+        if v.viol:
+            ctx.violation(f"ffsp|{sl}|{v.viol[0][0]}", f"invalid flow-shop schedule: {v.viol}", {**det, "final": final})
+        if [row[:J] for row in final["schedule"]] != [row[:J] for row in model.start]:
+            ctx.violation(f"ffsp|{sl}|schedule_vs_model", "stored schedule differs from the one the actions describe",
+                          {**det, "final": final, "model": model.start})
+        if abs(float(rew[r]) - v.obj) > 1e-5 * (1 + v.terms):
+            ctx.violation(f"ffsp|{sl}|makespan", f"reward {float(rew[r])} != -makespan {v.obj}", {**det, "final": final})
+        if j >= 1 and J >= 2:
+            ctx.nontriv({"c": case, "row": r})
+    ctx.sample({"env": "ffsp", "cfg": cfg, "B": B, "k": k, "actions_row_last": A[-1].tolist(), "reward_row_last": float(rew[-1])})
+
+
+def strat_ffsp_multistart(tier):
+    import hypothesis.strategies as st
+    from ..envs import row_strategy
+    spec = SPECS["ffsp"]
+
+    @st.composite
+    def c(draw):
+        cfg = draw(spec.cfg(tier))
+        cfg["mas"] = draw(st.integers(2, 3))
+        cfg["jobs"] = max(cfg["jobs"], 2)
+        B = draw(st.integers(1, 4))
+        src = draw(st.sampled_from(["gen", "lat"]))
+        case = {"env": "ffsp", "cfg": cfg, "B": B, "src": src, "seed": draw(st.integers(0, 2 ** 31 - 1)),
+                "k": draw(st.sampled_from([2, 2, 3, 6]))}
+        if src == "lat":
+            case["lat"] = draw(spec.lattice(cfg, B))
+        case["rows"] = [draw(row_strategy()) for _ in range(draw(st.integers(1, 6)))]
+        return case
+    return c()
+
+
 def strat(tier):
     import hypothesis.strategies as st
     from ..envs import row_strategy
@@ -114,5 +205,8 @@ def strat(tier):
     return c()
 
 
-SUBS = [Sub("episodes", execute, strategy=strat, budget={"quick": 4500, "thorough": 50000}, shards=16)]
+SUBS = [
+    Sub("episodes", execute, strategy=strat, budget={"quick": 4500, "thorough": 50000}, shards=16),
+    Sub("ffsp_multistart", execute_ffsp_multistart, strategy=strat_ffsp_multistart, budget={"quick": 640, "thorough": 8000}, shards=16),
+]
 TIME_CAP = {"quick": 400, "thorough": 3000}
